@@ -187,7 +187,7 @@ class Bus (objects.DBusObject):
         for rule_id in proto.matchRules:
             self.router.delMatch(rule_id)
 
-        for busName in proto.busNames.keys():
+        for busName in list(proto.busNames.keys()):
             self.dbus_ReleaseName(busName, proto.uniqueName)
 
         if proto.uniqueName:
